@@ -85,14 +85,83 @@ theorem unwindInto_onEnd (t : Rat) : ∀ (rest : List RCtx) (c : RCtx),
 theorem empty_exitInto (c : RCtx) : RCtx.empty.exitInto c = c := by
   cases c; simp [RCtx.exitInto, RCtx.empty, updStart, updEnd]
 
-/-- first request sent … last response received, as the endpoint saw it -/
-def spanOf (log : List (Rat × Rat)) : RCtx := ⟨log.head?.map Prod.fst, log.getLast?.map Prod.snd⟩
+/-- stamping a context with every request of an endpoint log, in log order -/
+def stampAll (c : RCtx) (log : List (Rat × Rat)) : RCtx := log.foldl (fun c x => (c.onStart x.1).onEnd x.2) c
+
+/-- earliest request sent … latest response received over an endpoint log -/
+def spanOf (log : List (Rat × Rat)) : RCtx := stampAll RCtx.empty log
+
+theorem stampAll_append (c : RCtx) (l1 l2 : List (Rat × Rat)) : stampAll c (l1 ++ l2) = stampAll (stampAll c l1) l2 := by
+  simp [stampAll, List.foldl_append]
+
+theorem unwindInto_stampAll : ∀ (log : List (Rat × Rat)) (rest : List RCtx) (c : RCtx),
+    unwindInto (stampAll c log) rest = stampAll (unwindInto c rest) log
+  | [], _, _ => rfl
+  | x :: log, rest, c => by
+    simp only [stampAll, List.foldl_cons]
+    have := unwindInto_stampAll log rest ((c.onStart x.1).onEnd x.2)
+    simp only [stampAll] at this
+    rw [this, unwindInto_onEnd, unwindInto_onStart]
+
+theorem fresh_exitInto (c : RCtx) (a b : Rat) : ((RCtx.empty.onStart a).onEnd b).exitInto c = (c.onStart a).onEnd b := by
+  simp [RCtx.exitInto, RCtx.onStart, RCtx.onEnd, RCtx.empty, updStart, updEnd]
+
+/-- the updates a child task makes through the inherited reference are the updates of the parent's dict -/
+theorem exitAllInto_eq (top : RCtx) (log : List (Rat × Rat)) : exitAllInto top log = stampAll top log := by
+  unfold exitAllInto stampAll
+  congr 1
+
+/-- `c` is the span of the log `l`: nothing, or (earliest sent, latest received) -/
+def Spans (c : RCtx) (l : List (Rat × Rat)) : Prop :=
+  (l = [] ∧ c = RCtx.empty) ∨
+  ∃ a ∈ l, ∃ b ∈ l, c.start = some a.1 ∧ c.stop = some b.2 ∧ ∀ x ∈ l, a.1 ≤ x.1 ∧ x.2 ≤ b.2
+
+theorem Spans.snoc {c : RCtx} {l : List (Rat × Rat)} (h : Spans c l) (x : Rat × Rat) :
+    Spans ((c.onStart x.1).onEnd x.2) (l ++ [x]) := by
+  right
+  rcases h with ⟨hl, hc⟩ | ⟨a, ha, b, hb, hs, he, hall⟩
+  · subst hl hc
+    exact ⟨x, by simp, x, by simp, by simp [RCtx.onStart, RCtx.onEnd, RCtx.empty, updStart],
+      by simp [RCtx.onStart, RCtx.onEnd, RCtx.empty, updEnd], by simp⟩
+  · have hmem : ∀ y, y ∈ l ++ [x] ↔ y ∈ l ∨ y = x := by intro y; simp
+    by_cases h1 : x.1 < a.1
+    · by_cases h2 : x.2 > b.2
+      · refine ⟨x, by simp, x, by simp, by simp [RCtx.onStart, RCtx.onEnd, updStart, hs, h1], by simp [RCtx.onStart, RCtx.onEnd, updEnd, he, h2], ?_⟩
+        intro y hy
+        rcases (hmem y).mp hy with hy | rfl
+        · have := hall y hy; constructor <;> linarith
+        · exact ⟨le_refl _, le_refl _⟩
+      · refine ⟨x, by simp, b, by simp [hb], by simp [RCtx.onStart, RCtx.onEnd, updStart, hs, h1], by simp [RCtx.onStart, RCtx.onEnd, updEnd, he, h2], ?_⟩
+        intro y hy
+        rcases (hmem y).mp hy with hy | rfl
+        · have := hall y hy; constructor <;> linarith
+        · exact ⟨le_refl _, not_lt.mp h2⟩
+    · by_cases h2 : x.2 > b.2
+      · refine ⟨a, by simp [ha], x, by simp, by simp [RCtx.onStart, RCtx.onEnd, updStart, hs, h1], by simp [RCtx.onStart, RCtx.onEnd, updEnd, he, h2], ?_⟩
+        intro y hy
+        rcases (hmem y).mp hy with hy | rfl
+        · have := hall y hy; constructor <;> linarith
+        · exact ⟨not_lt.mp h1, le_refl _⟩
+      · refine ⟨a, by simp [ha], b, by simp [hb], by simp [RCtx.onStart, RCtx.onEnd, updStart, hs, h1], by simp [RCtx.onStart, RCtx.onEnd, updEnd, he, h2], ?_⟩
+        intro y hy
+        rcases (hmem y).mp hy with hy | rfl
+        · exact hall y hy
+        · exact ⟨not_lt.mp h1, not_lt.mp h2⟩
+
+theorem spans_stampAll : ∀ (l' : List (Rat × Rat)) (c : RCtx) (l : List (Rat × Rat)), Spans c l → Spans (stampAll c l') (l ++ l')
+  | [], c, l, h => by simpa [stampAll] using h
+  | x :: l', c, l, h => by
+    have := spans_stampAll l' _ _ (h.snoc x)
+    simpa [stampAll, List.append_assoc] using this
+
+theorem spanOf_spans (log : List (Rat × Rat)) : Spans (spanOf log) log := by
+  have := spans_stampAll log RCtx.empty [] (Or.inl ⟨rfl, rfl⟩)
+  simpa [spanOf] using this
 
 structure PInv (t0 : Rat) (s : PState) : Prop where
   t0_le : t0 ≤ s.now
   ne : s.stack ≠ []
   bounds : ∀ x ∈ s.log, t0 ≤ x.1 ∧ x.1 ≤ x.2 ∧ x.2 ≤ s.now
-  last : ∀ l, s.log.getLast? = some l → l.2 = s.now
   span : unwind s.stack = spanOf s.log
 
 section prog
@@ -102,12 +171,45 @@ include hr
 theorem le_sleep' (now d : Rat) : now ≤ sleep r now d := by
   simp only [sleep, hr]; split <;> linarith
 
+/-- a stream: the clock only moves forward; every request it sends lies between its start and its end -/
+theorem runStream_spec : ∀ (ws : List (Rat × Bool)) (t : Rat) (log : List (Rat × Rat)),
+    t ≤ (runStream r ws t log).1 ∧
+    ∃ l, (runStream r ws t log).2.1 = log ++ l ∧ ∀ x ∈ l, t ≤ x.1 ∧ x.1 ≤ x.2 ∧ x.2 ≤ (runStream r ws t log).1
+  | [], t, log => ⟨le_refl _, [], by simp [runStream], by simp⟩
+  | (sv, f) :: ws, t, log => by
+    have h2 := le_sleep' hr t sv
+    simp only [runStream]
+    split
+    · exact ⟨h2, [(t, sleep r t sv)], rfl, by simp; exact h2⟩
+    · obtain ⟨h3, l, hl, hall⟩ := runStream_spec ws (sleep r t sv) (log ++ [(t, sleep r t sv)])
+      refine ⟨le_trans h2 h3, (t, sleep r t sv) :: l, by rw [hl]; simp, ?_⟩
+      intro x hx
+      rcases List.mem_cons.mp hx with rfl | hx
+      · exact ⟨le_refl _, h2, h3⟩
+      · have := hall x hx
+        exact ⟨le_trans h2 this.1, this.2.1, this.2.2⟩
+
+omit hr in
+theorem le_foldl_ratMax {α : Type} (f : α → Rat) : ∀ (xs : List α) (init : Rat),
+    init ≤ xs.foldl (fun m x => ratMax m (f x)) init ∧ ∀ x ∈ xs, f x ≤ xs.foldl (fun m x => ratMax m (f x)) init
+  | [], init => ⟨le_refl _, by simp⟩
+  | y :: xs, init => by
+    have ⟨h1, h2⟩ := le_foldl_ratMax f xs (ratMax init (f y))
+    have hm : init ≤ ratMax init (f y) ∧ f y ≤ ratMax init (f y) := by
+      unfold ratMax; split <;> constructor <;> linarith
+    simp only [List.foldl_cons]
+    refine ⟨le_trans hm.1 h1, ?_⟩
+    intro x hx
+    rcases List.mem_cons.mp hx with rfl | hx
+    · exact le_trans hm.2 h1
+    · exact h2 x hx
+
 theorem runProg_inv (t0 : Rat) : ∀ (ts : List Tok) (s : PState), PInv t0 s → PInv t0 (runProg r ts s)
   | [], s, h => h
   | .enter :: ts, s, h => by
     simp only [runProg]
     apply runProg_inv t0 ts
-    refine ⟨h.t0_le, by simp, h.bounds, h.last, ?_⟩
+    refine ⟨h.t0_le, by simp, h.bounds, ?_⟩
     have hne := h.ne
     cases hs : s.stack with
     | nil => exact absurd hs hne
@@ -121,7 +223,7 @@ theorem runProg_inv (t0 : Rat) : ∀ (ts : List Tok) (s : PState), PInv t0 s →
     split
     · rename_i c p rest hs
       apply runProg_inv t0 ts
-      refine ⟨h.t0_le, by simp, h.bounds, h.last, ?_⟩
+      refine ⟨h.t0_le, by simp, h.bounds, ?_⟩
       have := h.span
       rw [hs] at this
       exact this
@@ -132,7 +234,7 @@ theorem runProg_inv (t0 : Rat) : ∀ (ts : List Tok) (s : PState), PInv t0 s →
     set t1 := sleep r s.now gap with ht1
     set t2 := sleep r t1 service with ht2
     have hnew : PInv t0 { now := t2, stack := onTop (fun c => (c.onStart t1).onEnd t2) s.stack, log := s.log ++ [(t1, t2)], failed := fails } := by
-      refine ⟨by have := h.t0_le; simp only; linarith, ?_, ?_, ?_, ?_⟩
+      refine ⟨by have := h.t0_le; simp only; linarith, ?_, ?_, ?_⟩
       · have hne := h.ne
         cases hs : s.stack with
         | nil => exact absurd hs hne
@@ -143,9 +245,6 @@ theorem runProg_inv (t0 : Rat) : ∀ (ts : List Tok) (s : PState), PInv t0 s →
         · have := h.bounds x hx
           exact ⟨this.1, this.2.1, by simp only; linarith [this.2.2]⟩
         · exact ⟨by have := h.t0_le; simp only; linarith, h2, le_refl _⟩
-      · intro l hl
-        simp at hl
-        rw [← hl]
       · have hne := h.ne
         cases hs : s.stack with
         | nil => exact absurd hs hne
@@ -153,28 +252,54 @@ theorem runProg_inv (t0 : Rat) : ∀ (ts : List Tok) (s : PState), PInv t0 s →
           have hsp := h.span
           rw [hs] at hsp
           simp only [unwind] at hsp
-          simp only [onTop, unwind, unwindInto_onEnd, unwindInto_onStart, hsp]
-          -- stamping the span of the old log gives the span of the extended log
-          cases hlog : s.log with
-          | nil => simp [spanOf, RCtx.onStart, RCtx.onEnd, updStart, updEnd]
-          | cons a as =>
-            have ha := h.bounds a (by rw [hlog]; exact List.mem_cons_self)
-            have hl : (a :: as).getLast? = some ((a :: as).getLast (by simp)) := List.getLast?_eq_some_getLast (by simp)
-            have hlast := h.last _ (by rw [hlog]; exact hl)
-            have hgl : ((a :: as) ++ [(t1, t2)]).getLast? = some (t1, t2) := List.getLast?_concat
-            have hhd : ((a :: as) ++ [(t1, t2)]).head? = some a := by simp
-            simp only [spanOf, RCtx.onStart, RCtx.onEnd, hgl, hhd, hl, Option.map_some, List.head?_cons, updStart, updEnd]
-            have e1 : (if t1 < a.1 then some t1 else some a.1) = some a.1 := by
-              rw [if_neg]; have := ha.2.2; linarith
-            have e2 : (if t2 > ((a :: as).getLast (by simp)).2 then some t2 else some ((a :: as).getLast (by simp)).2) = some t2 := by
-              split
-              · rfl
-              · congr 1; linarith
-            rw [e1, e2]
+          simp only [onTop, unwind, unwindInto_onEnd, unwindInto_onStart, hsp, spanOf, stampAll_append]
+          rfl
     simp only [runProg]
     split
     · exact hnew
     · exact runProg_inv t0 ts _ hnew
+  | .par streams :: ts, s, h => by
+    set rs := streams.map (fun ws => runStream r ws s.now []) with hrs
+    set tEnd := rs.foldl (fun m x => ratMax m x.1) s.now with htEnd
+    set newLog := rs.flatMap (fun x => x.2.1) with hnl
+    have hmax := le_foldl_ratMax (fun x : Rat × List (Rat × Rat) × Bool => x.1) rs s.now
+    have hnewb : ∀ x ∈ newLog, s.now ≤ x.1 ∧ x.1 ≤ x.2 ∧ x.2 ≤ tEnd := by
+      intro x hx
+      simp only [hnl, List.mem_flatMap] at hx
+      obtain ⟨rk, hrk, hx⟩ := hx
+      have hrk' := hrk
+      simp only [hrs, List.mem_map] at hrk'
+      obtain ⟨ws, _, rfl⟩ := hrk'
+      obtain ⟨_, l, hl, hall⟩ := runStream_spec hr ws s.now []
+      rw [hl] at hx
+      have := hall x (by simpa using hx)
+      exact ⟨this.1, this.2.1, le_trans this.2.2 (hmax.2 _ hrk)⟩
+    have hnew : PInv t0 ⟨tEnd, onTop (fun c => exitAllInto c newLog) s.stack, s.log ++ newLog, rs.any (fun x => x.2.2)⟩ := by
+      refine ⟨le_trans h.t0_le hmax.1, ?_, ?_, ?_⟩
+      · have hne := h.ne
+        cases hs : s.stack with
+        | nil => exact absurd hs hne
+        | cons c rest => simp [onTop]
+      · intro x hx
+        simp only [List.mem_append] at hx
+        rcases hx with hx | hx
+        · have := h.bounds x hx
+          exact ⟨this.1, this.2.1, le_trans this.2.2 hmax.1⟩
+        · have := hnewb x hx
+          exact ⟨le_trans h.t0_le this.1, this.2.1, this.2.2⟩
+      · have hne := h.ne
+        cases hs : s.stack with
+        | nil => exact absurd hs hne
+        | cons c rest =>
+          have hsp := h.span
+          rw [hs] at hsp
+          simp only [unwind] at hsp
+          simp only [onTop, unwind, exitAllInto_eq, unwindInto_stampAll, hsp, spanOf, stampAll_append]
+    simp only [runProg]
+    split
+    · exact hnew
+    · exact runProg_inv t0 ts _ hnew
+
 end prog
 
 /-! ## the clock -/
@@ -208,39 +333,36 @@ theorem genDone_le_procStart (st : St) (q : Req) : genDone c st q ≤ procStartO
   · exact le_refl _
 
 theorem progOf_inv (st : St) (q : Req) : PInv (procStartOf c st q) (progOf c st q) :=
-  runProg_inv hr _ _ _ ⟨le_refl _, by simp, by simp, by simp, rfl⟩
+  runProg_inv hr _ _ _ ⟨le_refl _, by simp, by simp, rfl⟩
 
 /-- the executor's request context spans exactly first request sent … last response received -/
 theorem reqCtx_eq_span (st : St) (q : Req) : reqCtxOf c st q = spanOf (progOf c st q).log := (progOf_inv hr st q).span
 
+theorem reqCtx_spans (st : St) (q : Req) : Spans (reqCtxOf c st q) (progOf c st q).log := by
+  rw [reqCtx_eq_span hr]; exact spanOf_spans _
+
 theorem procStart_le_reqStart (st : St) (q : Req) : procStartOf c st q ≤ reqStartOf c st q := by
   have h := progOf_inv hr st q
   unfold reqStartOf
-  rw [reqCtx_eq_span hr]
-  cases hl : (progOf c st q).log with
-  | nil => simp [spanOf]
-  | cons a as => simp [spanOf]; exact (h.bounds a (by rw [hl]; exact List.mem_cons_self)).1
+  rcases reqCtx_spans hr st q with ⟨_, hc⟩ | ⟨a, ha, _, _, hs, _, _⟩
+  · simp [hc, RCtx.empty]
+  · simp [hs]; exact (h.bounds a ha).1
 
 theorem reqEnd_le_progNow (st : St) (q : Req) : reqEndOf c st q ≤ (progOf c st q).now := by
   have h := progOf_inv hr st q
   unfold reqEndOf
-  rw [reqCtx_eq_span hr]
-  cases hl : (progOf c st q).log.getLast? with
-  | none => simp [spanOf, hl]
-  | some l => simp [spanOf, hl]; exact le_of_eq (h.last l hl)
+  rcases reqCtx_spans hr st q with ⟨_, hc⟩ | ⟨_, _, b, hb, _, he, _⟩
+  · simp [hc, RCtx.empty]
+  · simp [he]; exact (h.bounds b hb).2.2
 
 theorem reqStart_le_reqEnd (st : St) (q : Req) : reqStartOf c st q ≤ reqEndOf c st q := by
   have h := progOf_inv hr st q
   unfold reqStartOf reqEndOf
-  rw [reqCtx_eq_span hr]
-  cases hl : (progOf c st q).log with
-  | nil => simp [spanOf]; exact h.t0_le
-  | cons a as =>
-    have ha := h.bounds a (by rw [hl]; exact List.mem_cons_self)
-    have hgl : (a :: as).getLast? = some ((a :: as).getLast (by simp)) := List.getLast?_eq_some_getLast (by simp)
-    have := h.last _ (by rw [hl]; exact hgl)
-    simp only [spanOf, List.head?_cons, Option.map_some, Option.getD_some, hgl]
-    linarith [ha.2.1, ha.2.2]
+  rcases reqCtx_spans hr st q with ⟨_, hc⟩ | ⟨a, _, b, hb, hs, he, hall⟩
+  · simp [hc, RCtx.empty]; exact h.t0_le
+  · simp only [hs, he, Option.getD_some]
+    have := (hall b hb).1
+    linarith [(h.bounds b hb).2.1]
 
 theorem progNow_le_procEnd (st : St) (q : Req) : (progOf c st q).now ≤ procEndOf c st q := by
   unfold procEndOf
@@ -271,27 +393,57 @@ end clock
 
 /-! ## what reaches the endpoint does not depend on the nesting of request contexts -/
 
-theorem runProg_log_prefix (r : Rat → Rat) : ∀ (ts : List Tok) (s : PState), ∃ l, (runProg r ts s).log = s.log ++ l
-  | [], s => ⟨[], by simp [runProg]⟩
-  | .enter :: ts, s => by simp only [runProg]; exact runProg_log_prefix r ts _
+theorem runProg_log_prefix {r : Rat → Rat} (hr : ∀ x, r x = x) : ∀ (ts : List Tok) (s : PState),
+    ∃ l, (runProg r ts s).log = s.log ++ l ∧ ∀ x ∈ l, s.now ≤ x.1
+  | [], s => ⟨[], by simp [runProg], by simp⟩
+  | .enter :: ts, s => by simp only [runProg]; exact runProg_log_prefix hr ts _
   | .exit :: ts, s => by
     simp only [runProg]
     split
-    · exact runProg_log_prefix r ts _
-    · exact runProg_log_prefix r ts _
+    · exact runProg_log_prefix hr ts _
+    · exact runProg_log_prefix hr ts _
   | .wire g sv f :: ts, s => by
+    have h1 := le_sleep' hr s.now g
+    have h2 := le_sleep' hr (sleep r s.now g) sv
     simp only [runProg]
     split
-    · exact ⟨_, rfl⟩
-    · obtain ⟨l, hl⟩ := runProg_log_prefix r ts
-        { now := sleep r (sleep r s.now g) sv, stack := onTop (fun c => (c.onStart (sleep r s.now g)).onEnd (sleep r (sleep r s.now g) sv)) s.stack,
-          log := s.log ++ [(sleep r s.now g, sleep r (sleep r s.now g) sv)], failed := f }
-      exact ⟨(sleep r s.now g, sleep r (sleep r s.now g) sv) :: l, by rw [hl]; simp⟩
+    · exact ⟨[(sleep r s.now g, sleep r (sleep r s.now g) sv)], rfl, by simp; exact h1⟩
+    · obtain ⟨l, hl, hall⟩ := runProg_log_prefix hr ts
+        ⟨sleep r (sleep r s.now g) sv, onTop (fun c => (c.onStart (sleep r s.now g)).onEnd (sleep r (sleep r s.now g) sv)) s.stack,
+          s.log ++ [(sleep r s.now g, sleep r (sleep r s.now g) sv)], f⟩
+      refine ⟨(sleep r s.now g, sleep r (sleep r s.now g) sv) :: l, by rw [hl]; simp, ?_⟩
+      intro x hx
+      rcases List.mem_cons.mp hx with rfl | hx
+      · exact h1
+      · exact le_trans (le_trans h1 h2) (hall x hx)
+  | .par streams :: ts, s => by
+    have hmax := le_foldl_ratMax (fun x : Rat × List (Rat × Rat) × Bool => x.1) (streams.map (fun ws => runStream r ws s.now [])) s.now
+    have hnewb : ∀ x ∈ (streams.map (fun ws => runStream r ws s.now [])).flatMap (fun x => x.2.1), s.now ≤ x.1 := by
+      intro x hx
+      simp only [List.mem_flatMap, List.mem_map] at hx
+      obtain ⟨rk, ⟨ws, _, rfl⟩, hx⟩ := hx
+      obtain ⟨_, l, hl, hall⟩ := runStream_spec hr ws s.now []
+      rw [hl] at hx
+      exact (hall x (by simpa using hx)).1
+    simp only [runProg]
+    split
+    · exact ⟨_, rfl, hnewb⟩
+    · obtain ⟨l, hl, hall⟩ := runProg_log_prefix hr ts
+        ⟨(streams.map (fun ws => runStream r ws s.now [])).foldl (fun m x => ratMax m x.1) s.now,
+          onTop (fun c => exitAllInto c ((streams.map (fun ws => runStream r ws s.now [])).flatMap (fun x => x.2.1))) s.stack,
+          s.log ++ (streams.map (fun ws => runStream r ws s.now [])).flatMap (fun x => x.2.1),
+          (streams.map (fun ws => runStream r ws s.now [])).any (fun x => x.2.2)⟩
+      refine ⟨(streams.map (fun ws => runStream r ws s.now [])).flatMap (fun x => x.2.1) ++ l, by rw [hl]; simp, ?_⟩
+      intro x hx
+      rcases List.mem_append.mp hx with hx | hx
+      · exact hnewb x hx
+      · exact le_trans hmax.1 (hall x hx)
 
 /-- the wire requests of a program, context management removed -/
 def flat : List Tok → List Tok
   | [] => []
   | .wire g sv f :: ts => .wire g sv f :: flat ts
+  | .par ss :: ts => .par ss :: flat ts
   | _ :: ts => flat ts
 
 /-- clock, endpoint log and failure flag are those of the flattened program, whatever the stack of contexts -/
@@ -306,6 +458,11 @@ theorem runProg_flat (r : Rat → Rat) : ∀ (ts : List Tok) (s s' : PState), s.
     · exact runProg_flat r ts _ s' h1 h2 h3
     · exact runProg_flat r ts _ s' h1 h2 h3
   | .wire g sv f :: ts, s, s', h1, h2, h3 => by
+    simp only [runProg, flat, h1, h2]
+    split
+    · exact ⟨rfl, rfl, rfl⟩
+    · exact runProg_flat r ts _ _ rfl rfl rfl
+  | .par ss :: ts, s, s', h1, h2, h3 => by
     simp only [runProg, flat, h1, h2]
     split
     · exact ⟨rfl, rfl, rfl⟩
@@ -331,33 +488,44 @@ theorem reqCtx_flat (st : St) (q : Req) :
   rw [hps]
   exact congrArg spanOf h.2.1
 
-/-- a sampled request: at least one wire request, `request_start` = first sent, `request_end` = last received -/
+/-- a sampled request: at least one wire request reached the endpoint; `request_start` is the instant the earliest of them was
+    sent, `request_end` the instant the latest response was received -/
 theorem stamps_span (st : St) (q : Req) (h : hasStamps c st q = true) :
-    ∃ first last, (progOf c st q).log.head? = some first ∧ (progOf c st q).log.getLast? = some last ∧
-      reqStartOf c st q = first.1 ∧ reqEndOf c st q = last.2 := by
+    ∃ first ∈ (progOf c st q).log, ∃ last ∈ (progOf c st q).log,
+      reqStartOf c st q = first.1 ∧ reqEndOf c st q = last.2 ∧ ∀ x ∈ (progOf c st q).log, first.1 ≤ x.1 ∧ x.2 ≤ last.2 := by
   unfold hasStamps at h
   unfold reqStartOf reqEndOf
-  rw [reqCtx_eq_span hr] at h ⊢
-  simp only [spanOf, Bool.and_eq_true, Option.isSome_map] at h
-  obtain ⟨first, hf⟩ := Option.isSome_iff_exists.mp h.1
-  obtain ⟨last, hl⟩ := Option.isSome_iff_exists.mp h.2
-  exact ⟨first, last, hf, hl, by simp [spanOf, hf], by simp [spanOf, hl]⟩
+  rcases reqCtx_spans hr st q with ⟨_, hc⟩ | ⟨a, ha, b, hb, hs, he, hall⟩
+  · simp [hc, RCtx.empty] at h
+  · exact ⟨a, ha, b, hb, by simp [hs], by simp [he], hall⟩
 
 theorem reqStart_of_first_wire (st : St) (q : Req) {g sv : Rat} {f : Bool} {rest : List Tok}
     (hq : q.prog = .wire g sv f :: rest) : reqStartOf c st q = sleep c.r (procStartOf c st q) g := by
+  have hsp := reqCtx_spans hr st q
+  have h1 := le_sleep hr (procStartOf c st q) g
+  have h2 := le_sleep hr (sleep c.r (procStartOf c st q) g) sv
+  have hlog : ∃ l, (progOf c st q).log = (sleep c.r (procStartOf c st q) g, sleep c.r (sleep c.r (procStartOf c st q) g) sv) :: l ∧
+      ∀ x ∈ l, sleep c.r (procStartOf c st q) g ≤ x.1 := by
+    unfold progOf
+    rw [hq]
+    simp only [runProg]
+    split
+    · exact ⟨[], by simp, by simp⟩
+    · obtain ⟨l, hl, hall⟩ := runProg_log_prefix hr rest
+        ⟨sleep c.r (sleep c.r (procStartOf c st q) g) sv,
+          onTop (fun x => (x.onStart (sleep c.r (procStartOf c st q) g)).onEnd (sleep c.r (sleep c.r (procStartOf c st q) g) sv)) [RCtx.empty],
+          [] ++ [(sleep c.r (procStartOf c st q) g, sleep c.r (sleep c.r (procStartOf c st q) g) sv)], f⟩
+      exact ⟨l, by rw [hl]; simp, fun x hx => le_trans h2 (hall x hx)⟩
+  obtain ⟨l, hl, hall⟩ := hlog
   unfold reqStartOf
-  rw [reqCtx_eq_span hr]
-  unfold progOf
-  rw [hq]
-  simp only [runProg]
-  split
-  · simp [spanOf]
-  · obtain ⟨l, hl⟩ := runProg_log_prefix c.r rest
-      { now := sleep c.r (sleep c.r (procStartOf c st q) g) sv,
-        stack := onTop (fun x => (x.onStart (sleep c.r (procStartOf c st q) g)).onEnd (sleep c.r (sleep c.r (procStartOf c st q) g) sv)) [RCtx.empty],
-        log := [] ++ [(sleep c.r (procStartOf c st q) g, sleep c.r (sleep c.r (procStartOf c st q) g) sv)], failed := f }
-    rw [hl]
-    simp [spanOf]
+  rcases hsp with ⟨he, _⟩ | ⟨a, ha, _, _, hs, _, hmin⟩
+  · rw [hl] at he; cases he
+  · simp only [hs, Option.getD_some]
+    rw [hl] at ha hmin
+    have hfirst := (hmin _ List.mem_cons_self).1
+    rcases List.mem_cons.mp ha with rfl | ha
+    · rfl
+    · exact le_antisymm hfirst (hall a ha)
 
 end span
 
